@@ -312,6 +312,7 @@ def _run_stream_init_sync(
             # serialized or sealed.  Continuations echo the token back and the
             # server resolves it from cache; see ``_state_token`` for why that
             # lookup is safe.
+            minted_at = int(time.time())
             call_token, call_id, call_state_bytes = _mint_call_token(
                 result.call_state,
                 result.output_schema,
@@ -319,6 +320,7 @@ def _run_stream_init_sync(
                 app._token_key,
                 auth,
                 stream_id,
+                now=minted_at,
             )
             # Warm the cache with the objects we already hold, so this stream's
             # first continuation does not have to open the token it was just
@@ -326,7 +328,13 @@ def _run_stream_init_sync(
             app._call_state_cache.put(
                 call_id,
                 auth,
-                _ResolvedCall(result.call_state, result.output_schema, result.input_schema, stream_id),
+                _ResolvedCall(
+                    result.call_state,
+                    result.output_schema,
+                    result.input_schema,
+                    stream_id,
+                    minted_at if app._token_ttl > 0 else None,
+                ),
                 time.time(),
             )
 
@@ -1265,6 +1273,7 @@ def _resolve_call_from_token(
             status_code=HTTPStatus.BAD_REQUEST,
         )
 
+    created_at: list[int] = []
     (
         call_state_bytes,
         call_state_type,
@@ -1272,7 +1281,7 @@ def _resolve_call_from_token(
         input_schema_bytes,
         token_call_id,
         stream_id,
-    ) = _open_call_token(call_token, app._token_key, _compute_call_aad(auth), app._token_ttl)
+    ) = _open_call_token(call_token, app._token_key, _compute_call_aad(auth), app._token_ttl, created_at_out=created_at)
     # Constant-time compare: the ids are both server-minted and already
     # authenticated, so this is belt-and-braces against a client pairing two
     # of its own tokens from different streams.
@@ -1314,4 +1323,6 @@ def _resolve_call_from_token(
                 status_code=HTTPStatus.BAD_REQUEST,
             ) from exc
 
-    return _ResolvedCall(call_state, output_schema, input_schema, stream_id)
+    return _ResolvedCall(
+        call_state, output_schema, input_schema, stream_id, created_at[0] if app._token_ttl > 0 else None
+    )
